@@ -29,6 +29,26 @@ func main() {
 		devC27()
 	case "c30":
 		devC30()
+	case "c36probe":
+		// sequential probe: a doomed execution at every memory budget, each followed by a victim that moves resources in branches
+		base := c36BaseWorld()
+		n := NewNode(NodeConfig{Name: "probe", Engine: "interp", Cache: "warm", EnvReuse: true}, base.Clone())
+		bad, aborted := 0, 0
+		for b := 0; b < 2500; b += 3 {
+			r := NewRng(uint64(b))
+			t1 := n.Exec(ExecReq{Kind: "script", Source: c36ScriptT(r, 1, b, 13), Salt: uint64(b), Faults: []FaultSpec{{Site: "mem", Nth: b, Mode: "sticky"}}}, false)
+			if t1.Class != "ok" {
+				aborted++
+			}
+			t2 := n.Exec(ExecReq{Kind: "script", Source: c36ScriptT(r, 2, b, 13), Salt: uint64(100000 + b)}, false)
+			if t2.Class != "ok" {
+				bad++
+				if bad < 4 {
+					fmt.Println("budget", b, "victim failed:", t2.ErrType, clip(fmt.Sprint(t2.Err), 500))
+				}
+			}
+		}
+		fmt.Println("aborted", aborted, "victims failing", bad)
 	case "c36templates":
 		devC36Templates()
 	case "c35zoo":
